@@ -458,25 +458,38 @@ pub fn builder_key_changes(pools: &Pools, r: &mut Report) {
             r.inconclusive.push(format!("C04 builder key changes need two keys for {}", p.name()));
             continue;
         }
-        let keys = [pools.key(p, 0), pools.key(p, 1)];
-        let order = [0usize, 1, 0, 1, 1];
+        // key #2 is unusable private-key material (public protocols): a build under it fails (or not - no verdict), and
+        // whatever that call left behind must not affect the builds that follow
+        let mut bad = pools.key(p, 0);
+        for b in bad.sk.iter_mut() {
+            *b = 0xff;
+        }
+        let keys = [pools.key(p, 0), pools.key(p, 1), bad];
+        let order: Vec<usize> = if p.is_local() { vec![0, 1, 0, 1, 1] } else { vec![0, 1, 2, 0, 2, 1, 1] };
         for layer in [Layer::Generic, Layer::Batteries] {
             let toks: Vec<Out<String>> = if layer == Layer::Generic {
                 let mut ops = vec![GOp::Set(Claim::Custom("data".into(), json!("key changes"))), GOp::Set(Claim::Exp("2999-01-01T00:00:00+00:00".into()))];
-                for k in order {
+                for &k in &order {
                     ops.push(GOp::UseKey(Box::new(keys[k].clone())));
                     ops.push(GOp::Build);
                 }
                 generic_run(p, &keys[0], &ops)
             } else {
                 let mut ops = vec![BOp::Set(Claim::Custom("data".into(), json!("key changes")))];
-                for k in order {
+                for &k in &order {
                     ops.push(BOp::UseKey(Box::new(keys[k].clone())));
                     ops.push(BOp::Build);
                 }
                 batteries_run(p, &keys[0], &ops)
             };
-            for (n, (t, k)) in toks.iter().zip(order).enumerate() {
+            for (n, (t, k)) in toks.iter().zip(order.iter().copied()).enumerate() {
+                if k == 2 {
+                    r.see("builds under unusable private-key material (no verdict)", &format!("{} {}", p.name(), t.class()));
+                    if t.is_panic() {
+                        r.violation(format!("C04 panic {}/{} unusable-key", p.name(), layer.name()), format!("{}/{}: building under unusable key material panicked: {}", p.name(), layer.name(), t.brief()), json!({"cmd": "C04-reuse", "note": "builder key-change case: re-run the check", "p": p.name()}));
+                    }
+                    continue;
+                }
                 r.evaluations += 2;
                 let tag = format!("{}/{}", p.name(), layer.name());
                 let replay = json!({"cmd": "C04-reuse", "note": "builder key-change case: re-run the check", "p": p.name(), "layer": layer.name(), "build_no": n + 1});
@@ -861,7 +874,7 @@ pub fn replay_c04(case: &Value) -> Report {
     r
 }
 
-pub const RULE_C04: &str = "per protocol 24 (thorough 1500) authentic tokens built at core/generic/batteries layer (footer none/text/empty, assertion none/text) are presented at the same layer under every single-bit neighbour of the key (all 256 bits of symmetric and Ed25519 public keys, all 392 bits of the compressed P-384 point, all bits of the RSA public-key DER), all-zero, all-one, 50 random (1500 for local tokens whose plaintext is 0-2 bytes, incl. the claim-less '{}' of the generic builder: garbage from an unauthenticated decryption is well-formed only when short), rotated/reversed/half-zeroed keys, every other pool key, and for v3.public the ECDSA 'duplicate-signature' keys recovered from the token's own signature over the specified digest and over five binding-free digest variants (the signer's key must be the only recovered key that is accepted); ONE builder object building under key1, key2, key1, key2, key2 (each token opens under the key it was built with and under no other); NESTED parser pairs (160, thorough 2000: a second parser object of any protocol/layer is created, used and dropped in the middle of another parser's session on the same thread; both must answer as they do alone); parser sessions incl. LONG ones (one parser object, 3000 (thorough 20000-70000) parses of right-key / other-key / one-character-changed presentations of 300 distinct tokens in a seeded order); oracle: any Ok under another key is a violation (a key that fails to parse counts as 'fails'); distinct_nontrivial = distinct (protocol, layer, key class, rejection variant)";
+pub const RULE_C04: &str = "per protocol 24 (thorough 1500) authentic tokens built at core/generic/batteries layer (footer none/text/empty, assertion none/text) are presented at the same layer under every single-bit neighbour of the key (all 256 bits of symmetric and Ed25519 public keys, all 392 bits of the compressed P-384 point, all bits of the RSA public-key DER), all-zero, all-one, 50 random (1500 for local tokens whose plaintext is 0-2 bytes, incl. the claim-less '{}' of the generic builder: garbage from an unauthenticated decryption is well-formed only when short), rotated/reversed/half-zeroed keys, every other pool key, and for v3.public the ECDSA 'duplicate-signature' keys recovered from the token's own signature over the specified digest and over five binding-free digest variants (the signer's key must be the only recovered key that is accepted); ONE builder object building under key1, key2, (unusable key material,) key1, ... (each token opens under the key it was built with and under no other, also after a build that failed); NESTED parser pairs (160, thorough 2000: a second parser object of any protocol/layer is created, used and dropped in the middle of another parser's session on the same thread; both must answer as they do alone); parser sessions incl. LONG ones (one parser object, 3000 (thorough 20000-70000) parses of right-key / other-key / one-character-changed presentations of 300 distinct tokens in a seeded order); oracle: any Ok under another key is a violation (a key that fails to parse counts as 'fails'); distinct_nontrivial = distinct (protocol, layer, key class, rejection variant)";
 
 // ==========================================================================================
 // C05
